@@ -69,7 +69,7 @@ def spec_check_1(ctx: Ctx) -> None:
             ctx.ob(d, c, ok, "Plan objects are constructed only inside Plan's own methods", sel="merge:plan-ctor")
 
 
-@rule("SPEC-CHECK-2", props=["C18"], floor=3)
+@rule("SPEC-CHECK-2", props=["C18", "C19", "C20"], floor=3)
 def spec_check_2(ctx: Ctx) -> None:
     """check_array_specs raises ValueError unless every spec equals the first (whole-object
     equality) and returns a spec of the checked sequence; compute checks before planning"""
@@ -107,17 +107,17 @@ def spec_check_2(ctx: Ctx) -> None:
                         why = "" if ok else "the compared sequence is not the specs of all arguments"
                     else:
                         why = f"the test `{unparse(el)}` does not compare whole specs with the first one"
-    ctx.ob(f, raises[0].stmt if raises else f.node, ok, "check_array_specs raises ValueError unless all specs == the first" + ("" if ok else f" — {why}"), sel="check:forall")
+    ctx.ob(f, raises[0].stmt if raises else f.node, ok, "check_array_specs raises ValueError unless all specs == the first (equality by value: an equal spec built elsewhere — explicitly, or by unpickling — must combine)" + ("" if ok else f" — {why}"), sel="check:forall", props=["C18", "C19", "C20"])
     rets = cfg.returns()
     okr = bool(rets) and all(r.stmt.value is not None and isinstance(r.stmt.value, ast.Attribute) and r.stmt.value.attr == "spec" and mentions_name(r.stmt.value, f.params[0]) for r in rets)
-    ctx.ob(f, rets[0].stmt if rets else f.node, okr, "check_array_specs returns the spec of a checked array", sel="check:returns")
+    ctx.ob(f, rets[0].stmt if rets else f.node, okr, "check_array_specs returns the spec of a checked array", sel="check:returns", props=["C18"])
     comp = repo.get(A.COMPUTE)
     ccfg = cfg_of(comp)
     chk = repo.calls_to(comp, CHECK)
     pl = repo.calls_to(comp, f"{A.ARRAY}.plan")
     ex = repo.calls_to(comp, A.FP_EXECUTE)
     ok = bool(chk) and bool(pl) and all(ccfg.dominates(ccfg.node_of(chk[0]), ccfg.node_of(x)) for x in pl + ex)
-    ctx.ob(comp, chk[0] if chk else comp.node, ok, "compute() checks specs of all its arrays before planning and executing", sel="check:compute")
+    ctx.ob(comp, chk[0] if chk else comp.node, ok, "compute() checks specs of all its arrays before planning and executing", sel="check:compute", props=["C18"])
 
 
 def _attrs_read(repo: Repo, cls: Def, fn: Def, seen=None) -> set[str]:
